@@ -15,12 +15,16 @@ use std::collections::BTreeSet;
 pub enum TOp {
     Update(usize, u64),
     Reset,
+    /// n resets in a row (a long-lived tracker)
+    ResetMany(u32),
 }
 
 #[derive(Serialize, Deserialize, Clone, Debug)]
 pub struct TrackerPlan {
     pub m: usize,
     pub float: bool,
+    #[serde(default)]
+    pub vt: TVt,
     /// value bit patterns (f64 bits, or u32 value in the low bits)
     pub ops: Vec<TOp>,
     pub probes: Vec<u64>,
@@ -28,15 +32,112 @@ pub struct TrackerPlan {
 
 pub struct TrackerSc;
 
-fn exec_tracker_f64(plan: &TrackerPlan, ctx: &mut Ctx) -> Result<(), Violation> {
+/// value types the crate instantiates the tracker with
+#[derive(Serialize, Deserialize, Clone, Copy, Debug, PartialEq, Eq, Default)]
+pub enum TVt {
+    #[default]
+    F64,
+    F32,
+    U32,
+    U16,
+    I32,
+    U64,
+    Usize,
+}
+
+trait TVal: probminhash::verif::MaxValue + PartialOrd + Copy + std::fmt::Debug {
+    /// value encoded in a plan word
+    fn decode(bits: u64) -> Self;
+    fn type_max() -> Self;
+    fn digest(self) -> u64;
+    fn up(self) -> Self;
+    fn down(self) -> Self;
+}
+impl TVal for f64 {
+    fn decode(b: u64) -> f64 {
+        f64::from_bits(b)
+    }
+    fn type_max() -> f64 {
+        f64::MAX
+    }
+    fn digest(self) -> u64 {
+        self.to_bits()
+    }
+    fn up(self) -> f64 {
+        next_up(self)
+    }
+    fn down(self) -> f64 {
+        next_down(self)
+    }
+}
+impl TVal for f32 {
+    fn decode(b: u64) -> f32 {
+        // plans carry f64 bit patterns for float trackers: narrow (finite values stay finite below f32::MAX)
+        let x = f64::from_bits(b);
+        if x.abs() >= f32::MAX as f64 { (f32::MAX / 2.0).copysign(x as f32) } else { x as f32 }
+    }
+    fn type_max() -> f32 {
+        f32::MAX
+    }
+    fn digest(self) -> u64 {
+        self.to_bits() as u64
+    }
+    fn up(self) -> f32 {
+        if self >= f32::MAX { self } else if self == 0.0 { f32::from_bits(1) } else if self > 0.0 { f32::from_bits(self.to_bits() + 1) } else { f32::from_bits(self.to_bits() - 1) }
+    }
+    fn down(self) -> f32 {
+        if self <= f32::MIN { self } else if self == 0.0 { -f32::from_bits(1) } else if self > 0.0 { f32::from_bits(self.to_bits() - 1) } else { f32::from_bits(self.to_bits() + 1) }
+    }
+}
+macro_rules! tval_int {
+    ($t:ty) => {
+        impl TVal for $t {
+            fn decode(b: u64) -> $t {
+                b as $t
+            }
+            fn type_max() -> $t {
+                <$t>::MAX
+            }
+            fn digest(self) -> u64 {
+                self as u64
+            }
+            fn up(self) -> $t {
+                self.saturating_add(1)
+            }
+            fn down(self) -> $t {
+                self.saturating_sub(1)
+            }
+        }
+    };
+}
+tval_int!(u32);
+tval_int!(u16);
+tval_int!(i32);
+tval_int!(u64);
+tval_int!(usize);
+
+fn exec_tracker<V: TVal>(plan: &TrackerPlan, ctx: &mut Ctx) -> Result<(), Violation> {
     let m = plan.m;
-    let mut t = Tracker::<f64>::new(m);
-    let mut model = vec![f64::MAX; m];
+    let mut t = Tracker::<V>::new(m);
+    let mut model: Vec<V> = vec![V::type_max(); m];
     let mut ties = false;
+    let maxof = |model: &Vec<V>| -> V {
+        let mut mx = model[0];
+        for x in model.iter() {
+            if *x > mx {
+                mx = *x;
+            }
+        }
+        mx
+    };
+    // initial state
+    ctx.check("C15", "reported-maximum-is-largest-slot-value", t.get_max_value() == V::type_max(), || {
+        format!("m {}: a new tracker reports maximum {:?}, expected the type maximum {:?}", m, t.get_max_value(), V::type_max())
+    })?;
     for (n, op) in plan.ops.iter().enumerate() {
         match op {
             TOp::Update(k, bits) => {
-                let v = f64::from_bits(*bits);
+                let v = V::decode(*bits);
                 ctx.ev("update", (*k as u64) << 32 ^ *bits);
                 if v < model[*k] {
                     model[*k] = v;
@@ -44,7 +145,7 @@ fn exec_tracker_f64(plan: &TrackerPlan, ctx: &mut Ctx) -> Result<(), Violation> 
                     ctx.count("fault:non-improving-update");
                 }
                 let sib = *k ^ 1;
-                if sib < m && model[sib].to_bits() == v.to_bits() {
+                if sib < m && model[sib] == v {
                     ties = true;
                 }
                 t.update(*k, v);
@@ -52,25 +153,33 @@ fn exec_tracker_f64(plan: &TrackerPlan, ctx: &mut Ctx) -> Result<(), Violation> 
             TOp::Reset => {
                 ctx.ev("reset", 0);
                 ctx.count("fault:reset");
-                model.iter_mut().for_each(|x| *x = f64::MAX);
+                model.iter_mut().for_each(|x| *x = V::type_max());
                 t.reset();
             }
+            TOp::ResetMany(cnt) => {
+                ctx.ev("reset-many", *cnt as u64);
+                ctx.count("fault:many-resets-in-a-row");
+                model.iter_mut().for_each(|x| *x = V::type_max());
+                for _ in 0..*cnt {
+                    t.reset();
+                }
+            }
         }
-        let truth = model.iter().cloned().fold(f64::MIN, f64::max);
+        let truth = maxof(&model);
         for k in 0..m {
             ctx.check("C15", "slot-value-is-smallest-offered", t.get_value(k) == model[k], || {
-                format!("m {} after operation {} ({:?}): slot {} reports {:e}, the smallest value offered is {:e}", m, n, op, k, t.get_value(k), model[k])
+                format!("{:?} m {} after operation {} ({:?}): slot {} reports {:?}, the smallest value offered is {:?}", plan.vt, m, n, op, k, t.get_value(k), model[k])
             })?;
         }
         ctx.check("C15", "reported-maximum-is-largest-slot-value", t.get_max_value() == truth, || {
-            format!("m {} after operation {} ({:?}): tracker reports maximum {:e}, slot values are {:?}", m, n, op, t.get_max_value(), model)
+            format!("{:?} m {} after operation {} ({:?}): tracker reports maximum {:?}, slot values are {:?}", plan.vt, m, n, op, t.get_max_value(), model)
         })?;
-        for pb in plan.probes.iter().map(|b| f64::from_bits(*b)).chain([truth, next_down(truth), next_up(truth)]) {
+        for pb in plan.probes.iter().map(|b| V::decode(*b)).chain([truth, truth.down(), truth.up(), V::type_max()]) {
             ctx.check("C15", "update-possible-iff-below-maximum", t.is_update_possible(pb) == (pb < truth), || {
-                format!("m {} after operation {}: is_update_possible({:e}) = {} but the maximum is {:e}", m, n, pb, t.is_update_possible(pb), truth)
+                format!("{:?} m {} after operation {}: is_update_possible({:?}) = {} but the maximum is {:?}", plan.vt, m, n, pb, t.is_update_possible(pb), truth)
             })?;
         }
-        ctx.out.add(t.get_max_value().to_bits());
+        ctx.out.add(t.get_max_value().digest());
     }
     if ties {
         ctx.count("probe:equal-values-in-sibling-slots");
@@ -100,49 +209,6 @@ fn next_down(x: f64) -> f64 {
     f64::from_bits(if x > 0.0 { b - 1 } else { b + 1 })
 }
 
-fn exec_tracker_u32(plan: &TrackerPlan, ctx: &mut Ctx) -> Result<(), Violation> {
-    let m = plan.m;
-    let mut t = Tracker::<u32>::new(m);
-    let mut model = vec![u32::MAX; m];
-    for (n, op) in plan.ops.iter().enumerate() {
-        match op {
-            TOp::Update(k, bits) => {
-                let v = *bits as u32;
-                ctx.ev("update", (*k as u64) << 32 ^ *bits);
-                if v < model[*k] {
-                    model[*k] = v;
-                } else {
-                    ctx.count("fault:non-improving-update");
-                }
-                t.update(*k, v);
-            }
-            TOp::Reset => {
-                ctx.ev("reset", 0);
-                ctx.count("fault:reset");
-                model.iter_mut().for_each(|x| *x = u32::MAX);
-                t.reset();
-            }
-        }
-        let truth = *model.iter().max().unwrap();
-        for k in 0..m {
-            ctx.check("C15", "slot-value-is-smallest-offered", t.get_value(k) == model[k], || {
-                format!("m {} after operation {} ({:?}): slot {} reports {}, the smallest value offered is {}", m, n, op, k, t.get_value(k), model[k])
-            })?;
-        }
-        ctx.check("C15", "reported-maximum-is-largest-slot-value", t.get_max_value() == truth, || {
-            format!("m {} after operation {} ({:?}): tracker reports maximum {}, slot values are {:?}", m, n, op, t.get_max_value(), model)
-        })?;
-        for pb in plan.probes.iter().map(|b| *b as u32).chain([truth, truth.saturating_sub(1), truth.saturating_add(1)]) {
-            ctx.check("C15", "update-possible-iff-below-maximum", t.is_update_possible(pb) == (pb < truth), || {
-                format!("m {} after operation {}: is_update_possible({}) = {} but the maximum is {}", m, n, pb, t.is_update_possible(pb), truth)
-            })?;
-        }
-        ctx.out.add(t.get_max_value() as u64);
-    }
-    ctx.nontrivial = plan.ops.len() >= 2;
-    Ok(())
-}
-
 impl Scenario for TrackerSc {
     type Plan = TrackerPlan;
     fn name(&self) -> &'static str {
@@ -150,7 +216,8 @@ impl Scenario for TrackerSc {
     }
     fn generate(&self, rng: &mut Rng, tier: Tier, _t: &str) -> TrackerPlan {
         let m = if rng.chance(0.03) { rng.log_range(41, if tier == Tier::Thorough { 5000 } else { 1000 }) as usize } else { rng.urange(1, 40) };
-        let float = rng.chance(0.6);
+        let vt = *rng.pick(&[TVt::F64, TVt::F64, TVt::F64, TVt::F32, TVt::U32, TVt::U16, TVt::I32, TVt::U64, TVt::Usize]);
+        let float = matches!(vt, TVt::F64 | TVt::F32);
         let npool = rng.urange(2, 6);
         let pool: Vec<u64> = (0..npool)
             .map(|_| if float { (match rng.below(4) { 0 => rng.f64(), 1 => rng.f64() * 1e-300, 2 => (rng.range(0, 20) as f64) * 0.5, _ => rng.f64() * 1e300 }).to_bits() } else { { let hi = if rng.chance(0.5) { 8 } else { u32::MAX as u64 }; rng.below(hi) } })
@@ -162,6 +229,9 @@ impl Scenario for TrackerSc {
             .map(|i| {
                 if rng.chance(0.02) {
                     return TOp::Reset;
+                }
+                if m <= 40 && rng.chance(0.0015) {
+                    return TOp::ResetMany(*rng.pick(&[255u32, 256, 257, 65_535, 65_536, 65_537]));
                 }
                 let k = match style {
                     0 => i % m,
@@ -182,13 +252,17 @@ impl Scenario for TrackerSc {
                 TOp::Update(k, v)
             })
             .collect();
-        TrackerPlan { m, float, ops, probes: pool }
+        TrackerPlan { m, float, vt, ops, probes: pool }
     }
     fn execute(&self, plan: &TrackerPlan, ctx: &mut Ctx) -> Result<(), Violation> {
-        if plan.float {
-            exec_tracker_f64(plan, ctx)
-        } else {
-            exec_tracker_u32(plan, ctx)
+        match plan.vt {
+            TVt::F64 => exec_tracker::<f64>(plan, ctx),
+            TVt::F32 => exec_tracker::<f32>(plan, ctx),
+            TVt::U32 => exec_tracker::<u32>(plan, ctx),
+            TVt::U16 => exec_tracker::<u16>(plan, ctx),
+            TVt::I32 => exec_tracker::<i32>(plan, ctx),
+            TVt::U64 => exec_tracker::<u64>(plan, ctx),
+            TVt::Usize => exec_tracker::<usize>(plan, ctx),
         }
     }
     fn shrink(&self, plan: &TrackerPlan) -> Vec<TrackerPlan> {
@@ -216,7 +290,7 @@ impl Scenario for TrackerSc {
     }
     fn doc(&self) -> Doc {
         Doc {
-            rule: "seeded update / reset histories over m 1..40 (3%: up to 1000, thorough 5000), V in {f64, u32}, values from tie-rich pools of 2..6 values, descending runs, sibling-pair sweeps, non-improving updates, resets; after EVERY operation all slots, the maximum and is_update_possible (pool values, maximum, predecessor, successor) are compared with a vector-of-minima model; non-trivial = >= 2 operations; distinct = distinct history fingerprints. No fault or schedule dimension exists for this sequential component: the simulator is used as seeded history generator + reference model",
+            rule: "seeded update / reset histories over m 1..40 (3%: up to 1000, thorough 5000), V in {f64, f32, u32, u16, i32, u64, usize}, values from tie-rich pools of 2..6 values, descending runs, sibling-pair sweeps, non-improving updates, resets; after EVERY operation all slots, the maximum and is_update_possible (pool values, maximum, predecessor, successor) are compared with a vector-of-minima model; non-trivial = >= 2 operations; distinct = distinct history fingerprints. No fault or schedule dimension exists for this sequential component: the simulator is used as seeded history generator + reference model",
             real: &["MaxValueTracker (through the guarded public wrapper probminhash::verif::Tracker)"],
             stub: &[],
             assumptions: &["no NaN values are offered"],
@@ -266,6 +340,8 @@ pub enum SOp {
     /// one draw; the generator's next word
     Next(u64),
     Reset,
+    /// n resets in a row (a long-lived generator)
+    ResetMany(u32),
 }
 
 #[derive(Serialize, Deserialize, Clone, Debug)]
@@ -348,10 +424,14 @@ impl Scenario for ShuffleSc {
         }
         let m = if rng.chance(0.03) { rng.log_range(65, if tier == Tier::Thorough { 1 << 20 } else { 1 << 14 }) as usize } else { rng.urange(1, 64) };
         let nops = if m > 64 { rng.urange(1, 3) * m + rng.usize_below(m) } else { rng.urange(1, 4 * m + 4) };
-        let p_reset = *rng.pick(&[0.0, 0.02, 0.1, 0.3]);
+        let p_reset: f64 = *rng.pick(&[0.0, 0.02, 0.1, 0.3]);
+        // a reset costs m steps: keep large instances to a handful of resets
+        let p_reset = if m > 64 { p_reset.min(6.0 / nops as f64) } else { p_reset };
         let ops = (0..nops)
             .map(|_| {
-                if rng.chance(p_reset) {
+                if m <= 64 && rng.chance(0.0008) {
+                    SOp::ResetMany(*rng.pick(&[255u32, 256, 257, 65_535, 65_536, 65_537]))
+                } else if rng.chance(p_reset) {
                     SOp::Reset
                 } else {
                     SOp::Next(match rng.below(8) {
@@ -380,6 +460,16 @@ impl Scenario for ShuffleSc {
                 let mut resets = 0;
                 for op in ops {
                     match op {
+                        SOp::ResetMany(cnt) => {
+                            ctx.ev("reset-many", *cnt as u64);
+                            ctx.count("fault:many-resets-in-a-row");
+                            for _ in 0..*cnt {
+                                sh.reset();
+                            }
+                            since.clear();
+                            words_since.clear();
+                            resets += 1;
+                        }
                         SOp::Reset => {
                             ctx.ev("reset", since.len() as u64);
                             if since.len() % m != 0 {
